@@ -46,10 +46,10 @@ TIMEOUT = {"quick": 1200, "thorough": 7200}
 
 # total number of generated histories per family (split over the shards)
 BUDGET = {
-    "quick": {"ext": 2400, "time": 480, "frf": 320, "psd": 240, "psdauf": 160, "tree": 480,
+    "quick": {"ext": 2400, "time": 480, "frf": 320, "psd": 240, "psdauf": 160, "psdpg": 160, "tree": 480,
               "uf": 960},
     "thorough": {"ext": 48000, "time": 8000, "frf": 5000, "psd": 4000, "tree": 7000,
-                 "uf": 20000, "psdauf": 3200},
+                 "uf": 20000, "psdauf": 3200, "psdpg": 3200},
 }
 NSLICE = {"quick": 16, "thorough": 16}
 
@@ -1654,6 +1654,74 @@ def fam_psdauf(sh, r, cla, ref, desc):
         for a, b in zip(mbk0, (S["m"], S["b"], S["k"]))), True, case, tags)
 
 
+def fam_psdpg(sh, r, cla, ref, desc):
+    """solvepsd with force PSD rows that are identically zero (first, middle, last) and a
+    category recovered from the applied-force entry sol.pg: the response PSD is
+    sum_i forcepsd[i] |recovery(unit solution i)|^2, a zero row contributes nothing and
+    must not disturb the unit force the other rows see."""
+    import warnings
+    import numpy as np
+    nm = int(r.integers(2, 5))
+    nforce = int(r.integers(2, 5))
+    nx = int(r.integers(3, 9))
+    x = np.cumsum(r.integers(1, 5, nx) * 0.5) + 0.5
+    drdefs = cla.DR_Def({"se": 0, "uf_reds": (1, 1, 1, 1)})
+    drdefs.add(name="acc", labels=nm, drfunc="sol.a")
+    drdefs.add(name="frc", labels=nforce, drfunc="sol.pg")
+    DR = cla.DR_Event()
+    DR.add(None, drdefs)
+    H = [{f: (r.standard_normal((nm, nx)) + 1j * r.standard_normal((nm, nx)))
+          for f in ("a", "v", "d")} for _ in range(nforce)]
+    fpsd = r.random((nforce, nx)) + 0.1
+    zero_rows = sorted(set(int(k) for k in r.integers(0, nforce, int(r.integers(1, 3)))))
+    if len(zero_rows) == nforce:
+        zero_rows = zero_rows[:-1]
+    fpsd[zero_rows] = 0.0
+    tags = {"family": "psdpg", "nforce": nforce, "zero_rows": zero_rows}
+    case = dict(desc, **tags)
+    sh.case(["psdpg", desc["slice"], desc["i"]], True, sample=case)
+    sh.count("cell:psdpg-zero-row-" + ("first" if 0 in zero_rows else "last"
+                                       if nforce - 1 in zero_rows else "middle"))
+    t_frc = np.eye(nm, nforce) if nm >= nforce else np.ones((nm, nforce))
+
+    class FS(_FakeFS):
+        def fsolve(self, genforce, freq, **kw):
+            from types import SimpleNamespace
+            d = self.H[self.calls % len(self.H)]
+            self.calls += 1
+            return SimpleNamespace(a=d["a"].copy(), v=d["v"].copy(), d=d["d"].copy(), f=freq)
+    # the fake solver is called once per force that is actually solved; tell it which
+    order_solved = []
+
+    class FS2(FS):
+        def fsolve(self, genforce, freq, **kw):
+            from types import SimpleNamespace
+            col = [k for k in range(nforce)
+                   if np.array_equal(genforce[:, 0], t_frc[:, k])]
+            k = col[len([o for o in order_solved if o in col]) % len(col)] if col else 0
+            order_solved.append(k)
+            d = self.H[k]
+            return SimpleNamespace(a=d["a"].copy(), v=d["v"].copy(), d=d["d"].copy(), f=freq)
+    if nm < nforce:
+        return          # columns of t_frc would not identify the force
+    results = DR.prepare_results("mission", "event A")
+    try:
+        with warnings.catch_warnings():
+            warnings.simplefilter("ignore")
+            results.solvepsd({"nrb": 0}, "LC 0", DR, FS2(np, H), fpsd, t_frc, x)
+    except Exception as e:
+        import traceback
+        sh.violation("exception:solvepsd-zero-rows", case,
+                     {"exc": repr(e), "tb": traceback.format_exc()[-800:]}, tags)
+        return
+    want_a = sum(fpsd[i][None, :] * np.abs(H[i]["a"]) ** 2 for i in range(nforce))
+    want_f = fpsd.copy()
+    sh.check_close("psd-zero-force-rows-acc", results["acc"]._psd["LC 0"], want_a,
+                   1e-12 * np.abs(want_a) + 1e-300, case, tags)
+    sh.check_close("psd-zero-force-rows-pg", results["frc"]._psd["LC 0"], want_f,
+                   1e-12 * np.abs(want_f) + 1e-300, case, tags)
+
+
 def run_shard(sh, params):
     import numpy as np  # noqa
     from pyyeti import cla
@@ -1663,7 +1731,7 @@ def run_shard(sh, params):
     only = params.get("only")
     if not only:
         nan_helpers(sh, cla, s, 40 if sh.tier == "quick" else 600)
-    for fam in ("ext", "time", "frf", "psd", "psdauf", "tree", "uf"):
+    for fam in ("ext", "time", "frf", "psd", "psdauf", "psdpg", "tree", "uf"):
         if only and fam not in only:
             continue
         func = globals().get("fam_" + fam)
@@ -1694,6 +1762,7 @@ MANDATORY_MONITORS = [
     "frf-percase-abscissa", "frf-history", "frf-srs-percase", "frf-srs-envelope",
     "psd-values", "psd-abscissa", "psd-maxcase", "psd-mincase", "psd-percase", "psd-rms",
     "psd-history", "psd-srs-percase", "psd-srs-envelope", "psd-apply_uf-response-psd",
+    "psd-zero-force-rows-pg", "psd-zero-force-rows-acc",
     "calc_ext-values", "calc_stat_ext", "split-merge-values", "split-merge-srs",
     "tree-values", "tree-abscissa", "tree-abscissa-none", "tree-maxcase", "tree-mincase",
     "tree-percase", "tree-cases", "tree-srs-envelope", "tree-srs-percase",
